@@ -3808,6 +3808,11 @@ func c12ErrSurfacesFromYield(call ssa.CallInstruction, tolerated []string) (bool
 }
 
 var c12Mutants = []Mutant{
+	// generic error-discipline rule (errdiscipline.go): the Close of a writer must surface
+	{Name: "ed-gzip-writer-close-discarded", File: "content/file/file.go",
+		Old:    "\t\tcloseErr := gzw.Close()\n\t\tif err == nil {\n\t\t\terr = closeErr\n\t\t}",
+		New:    "\t\tgzw.Close()",
+		Expect: "C12.ED.error-surfaces"},
 	// shared engine (errflow.go clobberedByDeferredStore): a deferred Close handler that assigns the named result unconditionally
 	{Name: "gz-close-clobbers-tar-error", File: "content/file/file.go",
 		Old:    "\t\tcloseErr := gz.Close()\n\t\tif err == nil {\n\t\t\terr = closeErr\n\t\t}",
